@@ -521,8 +521,16 @@ impl OtlpTransportBuilder {
                         let metrics = metrics.clone();
 
                         async move {
-                            let mut status = 0;
-                            let mut msg = String::new();
+                            let http_status = res.http_status();
+
+                            // A request that fails without producing a response message is reported
+                            // through a "Trailers-Only" response, where the status that would normally
+                            // be in the trailers is carried in the response headers instead
+                            let mut status = res
+                                .header("grpc-status")
+                                .and_then(|status| status.parse().ok())
+                                .unwrap_or(0);
+                            let mut msg = res.header("grpc-message").unwrap_or("").to_owned();
 
                             res.stream_payload(
                                 |_| {},
@@ -539,10 +547,17 @@ impl OtlpTransportBuilder {
                             .await?;
 
                             // A request is considered successful if the grpc-status trailer is 0
-                            if status == 0 {
+                            // Intermediaries that don't speak gRPC report failures through the HTTP status
+                            if status == 0 && http_status >= 200 && http_status < 300 {
                                 metrics.grpc_batch_sent.increment();
 
                                 Ok(vec![])
+                            } else if status == 0 {
+                                metrics.grpc_batch_failed.increment();
+
+                                Err(Error::msg(format_args!(
+                                    "OTLP gRPC server responded with HTTP status {http_status}"
+                                )))
                             }
                             // In any other case the request failed and may carry some diagnostic message
                             else {
